@@ -123,7 +123,7 @@ Definition sql_kind_of (c : ctx) : sql_kind :=
   else if is_cls "Attribute" p && pstr_eqb (attr_of p) (s2p "format") then SqlFormat
   else if is_cls "Attribute" p && pstr_eqb (attr_of p) (s2p "replace") then SqlReplace
   else if is_cls "JoinedStr" p then
-    match (field_list "values" p) with
+    match filter is_Str (field_list "values" p) with
     | s0 :: _ => if node_eqb (c_node c) s0 then SqlJoinedFirst else SqlJoinedOther
     | [] => SqlJoinedOther
     end
@@ -521,7 +521,7 @@ Section XssStep.
               else Ok false
           | AList [] => xss_loop id until rest secure
           | AList l =>
-              do ok <- xss_all (node_line st) l;;
+              do ok <- xss_all until l;;
               if ok then xss_loop id until rest true else Ok false
           end
     end.
